@@ -258,6 +258,28 @@ def check(ctx):
                    repo.own_method(ACC, method).loc, sample={"rule": "R6", "writer": method, "unit": u, "words": 65536, "mismatches": len(bad)})
     ctx.floor("R6", "word round trips evaluated", n_rb, 4 * 65536)
 
+    # ---- R7 presentation is pass-through -----------------------------------------------------------
+    ctx.rule("R7", "what the heater presents is the converted reading itself: current / target / real target temperature of a GeckoWaterHeater built by its own constructor equal, bit for bit, the value its temperature item decodes (raw/18 is not a whole tenth for 17 words out of 18: any rounding on the way makes write-what-you-read land on another word)")
+    interp = Interp(repo)
+    n_pt = 0
+    for raw in (670, 671, 677, 1, 65535):
+        v = raw / 18
+        obj, _accs, _rec = build_heater(repo, interp, units="C", current=v, target=v, real_target=v)
+        for member in ("current_temperature", "target_temperature", "real_target_temperature"):
+            try:
+                interp.steps = 0
+                got = interp.getattr(obj, member)
+            except PyRaise as e:
+                got = f"raises {e.what}"
+            except Undecided as e:
+                raise AnalysisError(f"GeckoWaterHeater.{member}: {e}")
+            n_pt += 1
+            ctx.ob("R7", f"GeckoWaterHeater.{member}::presents-the-reading", isinstance(got, float) and got == v,
+                   f"GeckoWaterHeater.{member} presents {got!r} while its item decodes word {raw} as {v!r} (Celsius): the presented value is not raw/18, and writing it back gives word "
+                   f"{int(got * 18) if isinstance(got, float) else '?'} instead of {raw}", repo.own_method("GeckoWaterHeater", member).loc,
+                   sample={"rule": "R7", "word": raw, "member": member, "presented": repr(got)} if raw == 671 else None)
+    ctx.floor("R7", "presented temperatures compared", n_pt, 15)
+
     # ---- R2 -------------------------------------------------------------------------------
     interp = Interp(repo)
     hc = repo.cls("GeckoWaterHeater")
